@@ -194,7 +194,15 @@ func (e *Eval) pkgMember(p *ssa.Package, name string) (Val, bool) {
 			return Val{T: x.mutexTerm(m), Typ: t}, true
 		}
 		key := x.globalKey(m)
-		return Val{T: x.get(e.st, key), Typ: t}, true
+		gv := Val{T: x.get(e.st, key), Typ: t}
+		// a package variable holds a well-formed value of its type (the same heap invariant the code's own loads assume)
+		if len(e.bound) == 0 && !x.pureMode {
+			switch t.Underlying().(type) {
+			case *types.Pointer, *types.Slice, *types.Map, *types.Interface, *types.Basic:
+				x.assume(e.st, x.wf(t, gv.T, e.st))
+			}
+		}
+		return gv, true
 	}
 	// constants of unexported/exported names are also in the types scope
 	if obj := p.Pkg.Scope().Lookup(name); obj != nil {
